@@ -48,7 +48,8 @@ def count_cond(line, dist):
         return
     dist["cases with conditions evaluated"] = dist.get("cases with conditions evaluated", 0) + 1
     for t in c.split(","):
-        name = {"wf": "wf_app holds", "full": "full_conditions holds", "rk": "dependency edges acyclic (ranked)"}.get(t[:-1], t[:-1])
+        name = {"wf": "wf_app holds", "full": "full_conditions holds", "rk": "dependency edges acyclic (ranked)",
+                "ds": "defaults_stable holds", "mo": "every message of the history is msg_ok"}.get(t[:-1], t[:-1])
         if t.endswith("1"):
             dist[name] = dist.get(name, 0) + 1
     cl = kv.get("cls", "-")
